@@ -3,6 +3,7 @@ import PynModel.Kernels.Count
 import PynModel.Kernels.ValueFrom
 import PynModel.Kernels.Process
 import PynModel.Kernels.Threshold
+import PynModel.Kernels.Eta
 /-!
 # C15 — compiled kernels stay inside their arrays and read only assigned variables
 
@@ -223,6 +224,42 @@ theorem pericont_safe (ts tt st en : Array Int) (hm : st.size = en.size) (w0 w1 
   obtain ⟨r, hr⟩ := pcK_safe ((jitrestrictCount ts st en hm).1.map (fun i => ts.getD i 0))
     ((jitrestrictCount tt st en hm).1.map (fun i => tt.getD i 0)) (jitrestrictCount ts st en hm).2
     (jitrestrictCount tt st en hm).2 w0 w1 st.size 0 #[] a1 b1 (by simpa using a2) (by simpa using b2)
+  simp only [bind, Except.bind, hr, pure, Except.pure]
+  exact ⟨_, rfl⟩
+
+theorem etaK_safe (ta ca tt dd en : Array Int) (hca : ca.size = ta.size) (bs : Int) (w1 : Nat) (c : Array Nat)
+    (k t : Nat) (hk out : Array Rat) (hc : c.size = en.size) (hs : asum c = tt.size) :
+    ∃ r, etaK ta ca tt dd en hca bs w1 c k t hk out = .ok r := by
+  induction hn : en.size - k generalizing k t hk out with
+  | zero =>
+    unfold etaK
+    have : ¬ k < en.size := by omega
+    simp [this]
+  | succ n ih =>
+    have hkk : k < en.size := by omega
+    unfold etaK
+    have hr : rdN c k = .ok (c[k]'(by omega)) := by simp [rdN, show k < c.size by omega]
+    have hle : psum c k + c[k]'(by omega) ≤ tt.size := by
+      have := psum_le_asum c (k+1)
+      rw [psum_succ c k (by omega), hs] at this; exact this
+    simp only [dif_pos hkk, hr, bind, Except.bind]
+    by_cases hpos : c[k]'(by omega) > 0
+    · simp only [dif_pos hpos, dif_pos hle]
+      exact ih (k+1) _ _ _ (by omega)
+    · simp only [dif_neg hpos]
+      exact ih (k+1) _ _ _ (by omega)
+
+/-- **`_jitperievent_trigger_average` stays inside its arrays and reads no unassigned local** for any count
+bins, counts, feature, interval arrays of equal length, window sizes and bin size: every read of the model
+is an `a[i]'h` read (checked when `PynModel/Kernels/Eta.lean` is elaborated), the scan position is only
+assigned from a computed `i_start` (`etaBin`), and the two run-time tests on the counters never fail -/
+theorem eta_safe (ta ca tt dd st en : Array Int) (hm : st.size = en.size) (hca : ca.size = ta.size)
+    (w0 w1 : Nat) (bs : Int) : ∃ r, eventTriggerAverage ta ca tt dd st en hm hca w0 w1 bs = .ok r := by
+  unfold eventTriggerAverage
+  obtain ⟨b1, b2⟩ := restrictCount_counts tt st en hm
+  obtain ⟨r, hr⟩ := etaK_safe ta ca ((jitrestrictCount tt st en hm).1.map (fun i => tt.getD i 0))
+    ((jitrestrictCount tt st en hm).1.map (fun i => dd.getD i 0)) en hca bs w1 (jitrestrictCount tt st en hm).2 0 0
+    (Array.replicate (w0 + w1 + 1) 0) (Array.replicate (w0 + w1 + 1) 0) (by omega) (by simpa using b2)
   simp only [bind, Except.bind, hr, pure, Except.pure]
   exact ⟨_, rfl⟩
 
